@@ -25,13 +25,15 @@
     C08_invalid_tag_range_error, C08_md_export_hyps (every run of the exporter model satisfies the
     side conditions `ExportHyps` of the writer-level theorems, incl. clock pokes and PCM windows),
     C08_full_partial (the property for every song; extra hypotheses: allocator invariant of the
-    wave bank, file < 4 GiB), C08_pcm_windows_are_samples, C08_pcm_offset_counterexample (why the
+    wave bank, file < 4 GiB), C08_pcm_windows_are_samples, C08_full_for_reachable_banks (the same for
+    every bank reachable in the sense of C14, with the window contents), C08_pcm_offset_counterexample (why the
     allocator invariant is needed: known finding D11), `def C08_full_statement`.
 -/
 import Ctrmml.Proofs.VgmInv
 import Ctrmml.Proofs.Utf8
 import Ctrmml.Proofs.VgmTagErr
 import Ctrmml.Proofs.MdExport
+import Ctrmml.Properties.C14
 namespace Ctrmml.Vgm
 open Ctrmml Ctrmml.VgmSpec
 
@@ -632,6 +634,42 @@ theorem C08_pcm_windows_are_samples (d : Data) (song : Song) (tags : Tags) (f : 
     obtain ⟨ins, _, hidx⟩ := hs
     refine ⟨s, ⟨ins, ‹_›, hidx⟩, ?_⟩
     exact window_in_block d hb s (List.mem_of_getElem? hidx)
+
+open MdDriver in
+/-- full_for_reachable_banks: `C08_full_partial` and `C08_pcm_windows_are_samples` apply to every
+instrument data whose wave bank is reachable in the sense of C14 (`Wave.Reach`: a new bank of
+less than 1 GiB followed by any history of admissible `add_sample` calls) — the allocator
+invariant is then a theorem (`C14_inv_histories_partial`), and so is the content of every window:
+the bytes a stream start addresses are the bytes requested for that sample (`ws`). -/
+theorem C08_full_for_reachable_banks (d : Data) (song : Song) (m : TagMap) (st : Stamps)
+    (rs : List Alloc.Win) (ws : List Bytes) (hr : Wave.Reach d.bank rs ws) :
+    (∀ ops, MdDriver.exportOps d song (finalTags m st) = .ok ops →
+      ((∀ t ∈ (finalTags m st).toList, Decodable t) → ∃ f, exportSong d song m st = .ok f) ∧
+      ((∃ t ∈ (finalTags m st).toList, ¬ Decodable t) → exportSong d song m st = .error .input)) ∧
+    (∀ f, exportSong d song m st = .ok f → f.length < 4294967296 →
+      dataStart f = 0x100 ∧ WellFormed f ((finalTags m st).toList.map gd3Units) ∧
+      TagsRendered ((finalTags m st).toList.map gd3Units) (finalTags m st)) ∧
+    (∀ f, exportSong d song m st = .ok f → ∃ cs tail, streamIs f cs tail ∧
+      ∀ w ∈ streamWindows cs, ∃ (i : Nat) (s : Wave.Sample), d.bank.samples[i]? = some s ∧ IsPcmSample d s ∧ ws[i]? = some w) := by
+  obtain ⟨_, hlen, hcont, _, _, _, inv⟩ := Wave.C14_inv_histories_partial d.bank rs ws hr
+  obtain ⟨_, h2, h3⟩ := C08_full_partial d song m st rs inv
+  refine ⟨h2, h3, ?_⟩
+  intro f hf
+  obtain ⟨cs, tail, hs, _, hw⟩ := C08_pcm_windows_are_samples d song (finalTags m st) f rs inv hf
+  refine ⟨cs, tail, hs, ?_⟩
+  intro w hwm
+  obtain ⟨s, hps, rfl⟩ := hw w hwm
+  obtain ⟨ins, hty, hidx⟩ := hps
+  have hlt : (d.waveMap.lookup ins).getD 0 < ws.length := by
+    rw [hlen]
+    exact (List.getElem?_eq_some_iff.mp hidx).1
+  obtain ⟨w', hw'⟩ : ∃ w', ws[(d.waveMap.lookup ins).getD 0]? = some w' := ⟨_, List.getElem?_eq_getElem hlt⟩
+  exact ⟨_, s, hidx, ⟨ins, hty, hidx⟩, by rw [hw', hcont _ s w' hidx hw']⟩
+
+/-- the hypothesis of `C08_full_for_reachable_banks` is met by the example bank -/
+example : ∃ rs ws, Wave.Reach exPcmData.bank rs ws :=
+  ⟨_, _, Wave.Reach.add ⟨⟨0, 0, 4, 0, 0, 8000, 0, 0⟩, [1, 2, 3, 4]⟩ exPcmBank 0
+    (Wave.Reach.new 64 0 (by omega) (by omega) (by omega)) ⟨by decide, by decide, fun _ => rfl⟩ rfl⟩
 
 /-! ### The full statement and why its extra hypothesis is needed -/
 
